@@ -52,10 +52,18 @@ def translators(repo):
         raise RuntimeError("translator self-test: only %d of %d source perturbations were visible" % (seen, total))
     import c09_loops
     text2 = c09_loops.translate(repo)
-    seen, total = c09_loops.selftest(repo)
-    if seen != total:
-        raise RuntimeError("loop translator self-test: only %d of %d source perturbations were visible" % (seen, total))
+    seen2, total2 = c09_loops.selftest(repo)
+    if seen2 != total2:
+        raise RuntimeError("loop translator self-test: only %d of %d source perturbations were visible" % (seen2, total2))
+    _TIE.update({"deep_embedding": ["chunk_ranges"],
+                 "shallow_loops": list(c09_loops.FUNCTIONS) + list(c09_loops.ITER_FUNCTIONS),
+                 "not_translated": ["windowed_iter (tee/zip/zip_longest)", "pairwise_iter", "partition",
+                                    "list-returning wrappers", "argument-dispatch preludes (guarded structurally)"],
+                 "selftest": "c09_ranges %d/%d, c09_loops %d/%d source perturbations visible" % (seen, total, seen2, total2)})
     return {"C09_Gen": text, "C09_Src": text2}
+
+
+_TIE = {}
 
 
 # --------------------------------------------------------------------------
@@ -864,7 +872,7 @@ def sample(case, obs):
 
 def extra_evidence(results):
     n = sum(1 for r in results if r["case"].get("fn", "").startswith("ref_"))
-    return {"spec_validation": {"cases": n, "what": "Spec.py_split/py_split_ws/py_*strip evaluated in Coq against the output "
+    return {"source_tie": dict(_TIE), "spec_validation": {"cases": n, "what": "Spec.py_split/py_split_ws/py_*strip evaluated in Coq against the output "
                                 "of the real str.split / re.split / str.strip on the corresponding character strings"}}
 
 
